@@ -136,6 +136,9 @@ def run_poll(world, rows, profile, client=None, role="primary", shared_args=None
     else:
         pre = baseline_frame(world)
         cfg = copy.deepcopy(world["config"])
+        if p.get("config_patch"):
+            # the operator hands over another configuration for the same election (edited between polls)
+            cfg[world["election_id"]][0].update(copy.deepcopy(p["config_patch"]))
         if shared_args is not None:
             shared_args["preprocessed"] = pre
             shared_args["config"] = cfg
